@@ -367,6 +367,21 @@ fn protected_ranges(kind: &str, d: &[u8]) -> Vec<(usize, usize)> {
     }
 }
 
+/// the stored digest fields inside the protected ranges
+fn stored_ranges(kind: &str, d: &[u8]) -> Vec<(usize, usize)> {
+    match kind {
+        "enc" => protected_ranges(kind, d).into_iter().filter(|(lo, hi)| hi - lo == 16).collect(),
+        "aidx" | "aidxc" if d.len() >= 28 => vec![(d.len() - 8, d.len())],
+        "lru" if d.len() >= 20 => vec![(4, 20)],
+        // the 64 hex digits after the last "Checksum: "
+        "v1" => match d.windows(10).rposition(|w| w == b"Checksum: ") {
+            Some(p) => vec![(p + 10, (p + 74).min(d.len()))],
+            None => vec![],
+        },
+        _ => vec![],
+    }
+}
+
 fn in_ranges(r: &[(usize, usize)], p: usize) -> bool {
     r.iter().any(|(lo, hi)| *lo <= p && p < *hi)
 }
@@ -493,6 +508,26 @@ impl Interp {
             return;
         }
         let replay = self.case_lines.clone();
+        // "compared over its full length": a change of one byte of the STORED digest must be
+        // rejected — acceptance means that byte is not compared
+        if let Mutation::At(p) = m {
+            if e.accepted && in_ranges(&stored_ranges(&self.kind, &self.base), *p) {
+                if self.kind == "v1" && e.aux == "unchecked" {
+                    // reported below / as the fail-open finding
+                    if e.content == b.content {
+                        s.oracle_fail("v1-checksum-line-lost-unchecked", "a damaged Checksum line is treated as no checksum: the response is accepted unchecked", &replay);
+                    }
+                } else {
+                    s.oracle_fail(&format!("{}-stored-digest-byte-not-compared", self.kind), &format!("changing byte {p} of the stored digest is accepted: {}", e.resp), &replay);
+                }
+            }
+            if self.kind == "upd" && in_ranges(&self.prot, *p) && p % 512 % 24 < 4 {
+                let slot = p / 512 * 21 + p % 512 / 24;
+                if e.aux.chars().nth(slot) == Some('1') && b.aux.chars().nth(slot) == Some('1') {
+                    s.oracle_fail("upd-stored-digest-byte-not-compared", &format!("changing byte {p} of the stored hash guard of slot {slot} still validates"), &replay);
+                }
+            }
+        }
         match self.kind.as_str() {
             "enc" | "lru" => {
                 if e.accepted && e.content != b.content {
@@ -562,7 +597,11 @@ impl Interp {
         // length guards (any response but io / none)
         let nontrivial = !matches!(e.resp.as_str(), "err:io" | "none" | "bad-op");
         s.case(if nontrivial { Some(&key) } else { None });
-        s.tally(&format!("{}:{}", self.kind, e.resp.split([' ', '=']).next().unwrap_or("")));
+        {
+            let first = e.resp.split(' ').next().unwrap_or("");
+            let first = if first.starts_with("n=") { "loaded" } else { first };
+            s.tally(&format!("{}:{}", self.kind, first));
+        }
         self.case_lines.truncate(1);
         if matches!(m, Mutation::None) {
             self.base_eval = Some(e);
